@@ -58,7 +58,7 @@ def exc_code(e):
     from paramiko.ssh_exception import SSHException
     if isinstance(e, SSHException):
         return 1
-    for name, c in (("UnicodeDecodeError", 11), ("ValueError", 9), ("AttributeError", 15), ("TypeError", 10),
+    for name, c in (("UnicodeDecodeError", 11), ("ValueError", 9), ("OverflowError", 9), ("AttributeError", 15), ("TypeError", 10),
                     ("IndexError", 8), ("KeyError", 7)):
         if any(c_.__name__ == name for c_ in type(e).__mro__):
             return c
@@ -87,6 +87,9 @@ def make_keys(ctx):
     for bits in (256, 384, 521):
         out.append(("generated-ecdsa-%d" % bits, paramiko.ECDSAKey.generate(bits=bits), None))
     for rel, cls, pw, cert in BUNDLED:
+        if not ctx.thorough and cert is None and rel not in ("tests/test_ecdsa_384.key", "tests/test_rsa_password.key",
+                                                             "tests/test_ed25519_password.key"):
+            continue
         p = os.path.join(ctx.repo, rel)
         if os.path.exists(p):
             out.append((rel, getattr(paramiko, cls).from_private_key_file(p, pw),
@@ -186,8 +189,14 @@ def run(ctx):
             # ---- public round trip (oracle) ----
             for how, mk in (("data", lambda: cls(data=blob)), ("msg", lambda: cls(msg=Message(blob))),
                             ("from_type_string", lambda: paramiko.PKey.from_type_string(k.get_name(), blob))):
-                p = mk()
                 ctx.count(("pubrt", label, how), kind="public-roundtrip")
+                try:
+                    p = mk()
+                except Exception as e:   # noqa: the key's own public encoding must parse
+                    ctx.fail("public-roundtrip:%s" % cls.__name__, "asbytes() of a key is rejected by %s: %s %s" % (
+                        how, type(e).__name__, str(e)[:60]), case={"key": label, "blob": blob}, expected="equal key",
+                        observed=type(e).__name__)
+                    continue
                 okk = (p == k and k == p and hash(p) == hash(k) and p.asbytes() == blob and p.fingerprint == k.fingerprint
                        and p.get_fingerprint() == k.get_fingerprint() and p.get_base64() == k.get_base64()
                        and p.get_name() == k.get_name() and p.get_bits() == k.get_bits() and not p.can_sign() and type(p) is cls)
@@ -206,7 +215,7 @@ def run(ctx):
                 ctx.count(("decode", label, mb), kind="decode:" + mlab.split(":")[0])
                 u8 = not isinstance(exc, UnicodeDecodeError)
                 ok = True
-                if exc is not None and (isinstance(exc, ValueError) and not isinstance(exc, UnicodeDecodeError) and ci == 0
+                if exc is not None and (isinstance(exc, (ValueError, OverflowError)) and not isinstance(exc, UnicodeDecodeError) and ci == 0
                                         or ci == 1 and isinstance(exc, SSHException) and str(exc) == "Invalid public key"):
                     ok = False
                 if len(mb) < 3000 and not (ci == 1 and mlab in ("point-infinity",)):
@@ -232,7 +241,7 @@ def run(ctx):
                 ctx.fail("eq-reflexive:%s" % cls.__name__, "== is not reflexive or holds against a non-key", case={"key": label})
             # ---- private round trip with passphrases ----
             if hasattr(k, "signing_key") or isinstance(k, paramiko.RSAKey):
-                pws = [None, "x", "pässwörd☃", b"bytes-pw"] + (["a" * 300, " "] if ctx.thorough else [])
+                pws = [None, "pässwörd☃", rng.choice(["x", b"bytes-pw"])] + (["a" * 300, " ", "x", b"bytes-pw"] if ctx.thorough else [])
                 for pw in pws:
                     path = os.path.join(tmp, "rt")
                     if os.path.exists(path):
